@@ -318,21 +318,21 @@ def run(ctx):
     for fl in flavours(ctx):
         ctx.unit = fl
         ctx.doc('C11.7', 'native API forwarding: each public entry point of this property reaches the implementation of the same name with its parameters in order and returns its result (sibling slips such as trylock -> lock, signal -> broadcast, swapped arguments)')
-        lib.native_forwarding(ctx, 'C11.7', fl, lambda n: n in ('myth_key_create', 'myth_key_delete', 'myth_setspecific', 'myth_getspecific'), floor=6)
+        ctx.attempt(lib.native_forwarding, ctx, 'C11.7', fl, lambda n: n in ('myth_key_create', 'myth_key_delete', 'myth_setspecific', 'myth_getspecific'), floor=6)
         v = ctx.view(NATIVE, roots=['myth_tls_call_destructors_rec', 'myth_tls_tree_destroy_rec', 'myth_tls_call_destructors',
                                     'myth_tls_tree_destroy', 'myth_tls_key_allocator_alloc'],
                      stops=('myth_tls_tree_node_free', 'myth_free') + lib.SPIN_STOPS, flavour=fl)
-        rule123_walk(ctx, v)
-        rule1_free(ctx, v)
-        rule4_leaf(ctx, v)
-        rule4_delete(ctx, fl)
-        rule5_terminations(ctx, fl)
+        ctx.attempt(rule123_walk, ctx, v)
+        ctx.attempt(rule1_free, ctx, v)
+        ctx.attempt(rule4_leaf, ctx, v)
+        ctx.attempt(rule4_delete, ctx, fl)
+        ctx.attempt(rule5_terminations, ctx, fl)
         from . import c10
         with ctx.shared({'C10.3': 'C11.8'}, floor=2,
                         doc='a new thread starts with an empty thread-specific tree on both creation paths (shared with C10.3): a recycled '
                             'record that keeps its previous owner\'s tree makes the exit walk call destructors on values this thread never '
                             'stored'):
-            c10.rule3_follows(ctx, fl)
+            ctx.attempt(c10.rule3_follows, ctx, fl)
         with ctx.shared({'C10.2': 'C11.6'}, floor=4,
                         doc='the exit walk visits the slots set/get use (shared with C10.2): both descend by the same bit groups of the '
                             'key, and a fresh leaf has all 16 value slots cleared - otherwise a destructor runs on a value the exiting '
@@ -340,8 +340,8 @@ def run(ctx):
             v10 = ctx.view(NATIVE, roots=['myth_tls_tree_get', 'myth_tls_tree_set', 'myth_tls_key_allocator_alloc',
                                           'myth_tls_key_allocator_dealloc', 'myth_tls_tree_node_alloc_leaf', 'myth_tls_tree_node_alloc_node'],
                            stops=('myth_tls_tree_node_alloc', 'myth_malloc') + lib.SPIN_STOPS, flavour=fl)
-            c10.rule2_decomp(ctx, v10)
-            c10.rule2_levels(ctx, v10)
+            ctx.attempt(c10.rule2_decomp, ctx, v10)
+            ctx.attempt(c10.rule2_levels, ctx, v10)
 
 
 TLS = 'src/myth_tls_func.h'
